@@ -273,7 +273,15 @@ OlRefillEffect(W, S, ev) ==
       sc == {x \in DOMAIN W.scalars : UnderList(x, l)}
       ob == {x \in DOMAIN W.objs : UnderList(x, l)}
       ck == UNION {{CKey(o, b) : b \in BlockNames(W, W.objs[o].cls)} : o \in ob}
-  IN [S EXCEPT !.vals  = [x \in DOMAIN S.vals |-> IF x \in sc THEN W.scalars[x].init ELSE S.vals[x]],
+      ls == {x \in DOMAIN W.lists : x # l /\ UnderList(x, l) /\ ~W.lists[x].isobj}     \* scalar lists owned by the elements
+      oldEl == UNION {{ElemPath(x, i - 1) : i \in 1..S.sz[x]} : x \in ls}
+      newEl == UNION {{ElemPath(x, i - 1) : i \in 1..Len(W.lists[x].init)} : x \in ls}
+      initOf(p) == LET x == CHOOSE y \in ls : \E i \in 1..Len(W.lists[y].init) : ElemPath(y, i - 1) = p
+                       i == CHOOSE j \in 1..Len(W.lists[x].init) : ElemPath(x, j - 1) = p
+                   IN W.lists[x].init[i]
+  IN [S EXCEPT !.vals  = [x \in (DOMAIN S.vals \ oldEl) \cup newEl |->
+                             IF x \in newEl THEN initOf(x) ELSE IF x \in sc THEN W.scalars[x].init ELSE S.vals[x]],
+               !.sz    = [x \in DOMAIN S.sz |-> IF x \in ls THEN Len(W.lists[x].init) ELSE S.sz[x]],
                !.rmode = [x \in DOMAIN S.rmode |-> IF x \in sc \cup ob THEN TRUE ELSE S.rmode[x]],
                !.cmode = [k \in DOMAIN S.cmode |-> IF k \in ck THEN TRUE ELSE S.cmode[k]]]
 OlRefillClauses(W, S, ev) ==
